@@ -32,6 +32,10 @@ def check(layout, values) -> list[str]:
         names = RC.KAIFA_LAYOUTS[layout]
         body = RC.kaifa_body_positional(names, values)
     errs = []
+    try:  # a call that fails (truncated body) comes first: it must leave nothing behind
+        kaifa.decode_notification_body(body[:-1])
+    except Exception:  # noqa: BLE001
+        pass
     try:
         d1 = kaifa.decode_notification_body(body)
         d2 = kaifa.decode_frame_content(RC.llc(body, b"\x09\x0c" + RC.dt12(*APDU)))
